@@ -42,6 +42,8 @@ with open(os.path.join(root, "RESULTS.md"), "w") as fh:
                            for c, v in sorted(hv.get("checks", {}).items()))
         if meta.get("obsolete"):
             checks = "obsolete: " + meta["obsolete"]
+        if meta.get("not_caught_note"):
+            checks += " - " + meta["not_caught_note"]
         fh.write("| %s | %s | %s | %s/%s | %s |\n" % (sid, str(meta.get("summary", ""))[:160].replace("|", "/").replace("\n", " "),
                                                    str(meta.get("needs_to_manifest", ""))[:160].replace("|", "/").replace("\n", " "),
                                                    hv.get("demo_on_clean_tree_rc"), hv.get("demo_on_patched_tree_rc"), checks))
